@@ -83,13 +83,17 @@ func recC14(c *ctx) {
 		name string
 		h    crypto.Hash
 	}
-	hashes := []hf{{"sha224", crypto.SHA224}, {"sha256", crypto.SHA256}, {"sha384", crypto.SHA384}, {"sha512", crypto.SHA512}}
+	hashes := []hf{{"sha224", crypto.SHA224}, {"sha256", crypto.SHA256}, {"sha384", crypto.SHA384}, {"sha512", crypto.SHA512},
+		{"sha512_256", crypto.SHA512_256}, {"sha3_256", crypto.SHA3_256}, {"sha3_512", crypto.SHA3_512}}
 	xofs := map[string]sha3.ShakeHash{"shake128": sha3.NewShake128(), "shake256": sha3.NewShake256()}
 	dstLens := []int{0, 1, 16, 254, 255, 256, 257, 1000}
 	thorough := c.tier == "thorough"
 	xmd := func(h hf, dst, msg []byte, n int) {
 		out := make([]byte, n)
-		err := h2c.ExpandMessageXMD(out, h.h, dst, msg)
+		var err error
+		if !c.try("ExpandMessageXMD", vt.Ev{"hash": h.name, "n": n, "dstlen": len(dst)}, func() { err = h2c.ExpandMessageXMD(out, h.h, dst, msg) }) {
+			return
+		}
 		t := &htab{}
 		t.xmd(h.h, dst, msg, n)
 		e := vt.Ev{"op": "xmd", "cfg": c.cfg, "hash": h.name, "b": h.h.Size(), "r": h.h.New().BlockSize(), "dst": vt.B(dst), "msg": vt.B(msg),
@@ -104,7 +108,15 @@ func recC14(c *ctx) {
 	}
 	xof := func(name string, dst, msg []byte, n int) {
 		out := make([]byte, n)
-		err := h2c.ExpandMessageXOF(out, xofs[name], dst, msg)
+		inst := xofs[name]
+		if r.Intn(3) == 0 { // an instance the caller has already absorbed data into: the library must start from a clean state
+			inst = inst.Clone()
+			inst.Write([]byte("left over from an earlier use"))
+		}
+		var err error
+		if !c.try("ExpandMessageXOF", vt.Ev{"xof": name, "n": n, "dstlen": len(dst)}, func() { err = h2c.ExpandMessageXOF(out, inst, dst, msg) }) {
+			return
+		}
 		t := &htab{}
 		t.xof(xofs[name], dst, msg, n)
 		e := vt.Ev{"op": "xof", "cfg": c.cfg, "xof": name, "dst": vt.B(dst), "msg": vt.B(msg), "n": n, "ok": err == nil, "sha": t.ents}
@@ -150,7 +162,7 @@ func recC14(c *ctx) {
 		}
 	}
 	// ---- suites
-	n := c.budget(12, 240)
+	n := c.budget(16, 240)
 	for i := 0; i < n; i++ {
 		dst := r.Bytes([]int{1, 16, 40, 255, 256}[r.Intn(5)])
 		msg := r.Bytes(r.Intn(60))
@@ -158,7 +170,21 @@ func recC14(c *ctx) {
 		e := vt.Ev{"op": "suite", "cfg": c.cfg, "dst": vt.B(dst), "msg": vt.B(msg)}
 		var enc []byte
 		var err error
-		switch i % 6 {
+		switch i % 8 {
+		case 6:
+			e["suite"], e["n"], e["kind"], e["hash"], e["b"], e["r"] = "edwards25519_XMD:SHA-384_ELL2_NU_", 48, "nu", "sha384", 48, 128
+			t.xmd(crypto.SHA384, dst, msg, 48)
+			p, er := h2c.Edwards25519_XMD_ELL2_NU(crypto.SHA384, dst, msg)
+			if err = er; er == nil {
+				enc, _ = p.MarshalBinary()
+			}
+		case 7:
+			e["suite"], e["n"], e["kind"], e["xof"] = "edwards25519_XOF:SHAKE128_ELL2_NU_", 48, "nu", "shake128"
+			t.xof(xofs["shake128"], dst, msg, 48)
+			p, er := h2c.Edwards25519_XOF_ELL2_NU(xofs["shake128"], dst, msg)
+			if err = er; er == nil {
+				enc, _ = p.MarshalBinary()
+			}
 		case 0:
 			e["suite"], e["n"], e["kind"], e["hash"], e["b"], e["r"] = "edwards25519_XMD:SHA-512_ELL2_RO_", 96, "ro", "sha512", 64, 128
 			t.xmd(crypto.SHA512, dst, msg, 96)
